@@ -396,7 +396,8 @@ LibPureOK(name, a, heap, off) ==     \* a = validated arguments
       [] name = "stringUpper" -> IF AsciiOnly(a[1].v) THEN R(Str(UpperCase(a[1].v)), heap) ELSE SkipR(heap)
       [] name = "stringNew" -> LET t == ToText(a[1], heap, off) IN IF t.ok THEN R(Str(t.s), heap) ELSE SkipR(heap)
       [] name = "stringRepeat" ->
-            IF Ix(a[2]) * Len(a[1].v) > 100000 THEN SkipR(heap) ELSE R(Str(RepeatSeq(a[1].v, Ix(a[2]))), heap)
+            IF a[1].v = <<>> THEN R(Str(<<>>), heap)                     \* (any count of nothing is nothing - and costs nothing to specify)
+            ELSE IF Ix(a[2]) > 100000 \/ Ix(a[2]) * Len(a[1].v) > 100000 THEN SkipR(heap) ELSE R(Str(RepeatSeq(a[1].v, Ix(a[2]))), heap)
       [] name = "stringReplace" -> R(Str(StrReplaceAll(a[1].v, a[2].v, a[3].v)), heap)
       [] name = "stringSlice" ->
             LET s == a[1].v
